@@ -170,9 +170,11 @@ def split_await(fn):
     return p1, p2
 
 
-def function_kind(fn, in_class, stateful=False):
+def function_kind(fn, in_class, stateful=False, fluent=False):
     """KFunction / KMethod / KClassMethod / KProperty (printed as KMethod; read as `self.name`) /
-    KProcedure (a method other than __init__ none of whose returns carries a value)"""
+    KProcedure (a method other than __init__ none of whose returns carries a value) /
+    KFluent (printed as KMethod; only with opts["fluent"]): a method every return of which is `return self`
+    and whose last statement is one: it may change self, and the self it leaves IS its value"""
     if not in_class:
         return "KFunction"
     decs = [d.id for d in fn.decorator_list if isinstance(d, ast.Name)]
@@ -183,6 +185,9 @@ def function_kind(fn, in_class, stateful=False):
     if fn.name == "__init__":
         return "KMethod"
     rets = [n for n in ast.walk(fn) if isinstance(n, ast.Return)]
+    if fluent and rets and all(isinstance(r.value, ast.Name) and r.value.id == "self" for r in rets) \
+            and isinstance(fn.body[-1], ast.Return) and fn.args.args and fn.args.args[0].arg == "self":
+        return "KFluent"
     if all(r.value is None or (isinstance(r.value, ast.Constant) and r.value.value is None) for r in rets):
         return "KProcedure"
     return "KStateful" if stateful else "KMethod"
@@ -208,9 +213,12 @@ class FunctionTranslator:
                             self.props.add(n.name)
                         elif isinstance(d, ast.Attribute) and d.attr in ("setter", "deleter", "getter"):
                             raise TranslateError(f"line {n.lineno}: property setter / deleter in the class")
-        self.kind = kind or function_kind(fn, in_class, bool(self.effects) or bool(self.opts.get("stateful")))
+        self.kind = kind or function_kind(fn, in_class, bool(self.effects) or bool(self.opts.get("stateful")),
+                                          bool(self.opts.get("fluent")))
+        self.owned = dict(self.opts.get("owned", {}))   # attribute of self -> fields of the instance it holds
         self.receiver = fn.args.args[0].arg if (in_class and fn.args.args) else None
         self.stringio = self._stringio_locals(fn)
+        self.alias_roots, self.index_dicts, self.alias_elems = self._aliases(fn)
         if self.receiver == "self":
             self._check_self_uses(fn)
         self.globals_ok = globals_ok
@@ -229,11 +237,11 @@ class FunctionTranslator:
                 fail(node, "global / nonlocal declaration")
             if isinstance(node, ast.NamedExpr):
                 fail(node, "assignment expression")
-            if isinstance(node, (ast.ListComp, ast.SetComp, ast.DictComp)):
-                fail(node, "comprehension")
+            if isinstance(node, (ast.ListComp, ast.SetComp)):
+                fail(node, "comprehension")            # (a DictComp is accepted only as an index dict, see _aliases)
         comp_targets = set()
         for node in ast.walk(fn):
-            if isinstance(node, ast.GeneratorExp):
+            if isinstance(node, (ast.GeneratorExp, ast.DictComp)):
                 for g in node.generators:
                     for t in ast.walk(g.target):
                         if isinstance(t, ast.Name):
@@ -284,12 +292,131 @@ class FunctionTranslator:
                 fail(n, "a StringIO local is used other than as the receiver of .write / .getvalue (aliasing)")
         return cand
 
+    def _aliases(self, fn):
+        """Locals that alias objects living inside self (PyMini: paths, see Base/PyMini.v):
+             x = self.<D>[k]                       root alias of a dict item (D a dict attribute of self)
+             d = {c.<K>: c for c in x.<A>}         index of the elements of the list x.A (values: element aliases)
+             y = d.get(..)                         element alias (or None)
+           Conditions checked here, so that a path keeps denoting the same object while the alias is used:
+             * each such local is assigned exactly once, at the top level of the function, and never otherwise bound;
+             * an alias is only used as `x.attr` (read), `x.attr = e` (write), and `y is None` / `y is not None`;
+               it is never passed, stored, returned or compared otherwise (it does not escape);
+             * after `x = self.D[k]` nothing in this function - nor in the methods of self it calls - rebinds,
+               pops or deletes an item of D or D itself (self.write_summary), and the names in k are not rebound;
+             * an assignment `x.A = ..` (the list is replaced) comes after the last use of the index d of x.A and
+               of its element aliases, in the top-level statement order;
+             * a plain local that received `x.attr` (a snapshot) is not used after a later write through an
+               element alias of x."""
+        dicts = self.dicts
+        roots, idx, elems = {}, {}, {}
+        if not dicts or self.receiver != "self":
+            return roots, idx, elems
+        top = list(fn.body)
+        def top_index(node):
+            for i, st in enumerate(top):
+                if any(n is node for n in ast.walk(st)):
+                    return i
+            return None
+        assigns = {}
+        for n in ast.walk(fn):
+            if isinstance(n, ast.Name) and isinstance(n.ctx, (ast.Store, ast.Del)):
+                assigns.setdefault(n.id, 0)
+                assigns[n.id] += 1
+        for i, st in enumerate(top):
+            if not (isinstance(st, ast.Assign) and len(st.targets) == 1 and isinstance(st.targets[0], ast.Name)):
+                continue
+            x, v = st.targets[0].id, st.value
+            if (isinstance(v, ast.Subscript) and isinstance(v.value, ast.Attribute) and isinstance(v.value.value, ast.Name)
+                    and v.value.value.id == "self" and v.value.attr in dicts and not isinstance(v.slice, (ast.Slice, ast.Tuple))):
+                if assigns.get(x) != 1 or x in [p.arg for p in fn.args.args]:
+                    fail(st, f"alias {x} of a dictionary item is bound more than once")
+                roots[x] = (v.value.attr, v.slice, i)
+            elif (isinstance(v, ast.DictComp) and len(v.generators) == 1 and not v.generators[0].ifs
+                  and not v.generators[0].is_async and isinstance(v.generators[0].target, ast.Name)
+                  and isinstance(v.generators[0].iter, ast.Attribute) and isinstance(v.generators[0].iter.value, ast.Name)
+                  and v.generators[0].iter.value.id in roots
+                  and isinstance(v.key, ast.Attribute) and isinstance(v.key.value, ast.Name)
+                  and v.key.value.id == v.generators[0].target.id
+                  and isinstance(v.value, ast.Name) and v.value.id == v.generators[0].target.id):
+                if assigns.get(x) != 1:
+                    fail(st, f"index dict {x} is bound more than once")
+                idx[x] = (v.generators[0].iter.value.id, v.generators[0].iter.attr, v.key.attr, i)
+        # element aliases: y = d.get(e) anywhere (a loop body), bound only by such statements
+        for n in ast.walk(fn):
+            if (isinstance(n, ast.Assign) and len(n.targets) == 1 and isinstance(n.targets[0], ast.Name)
+                    and isinstance(n.value, ast.Call) and isinstance(n.value.func, ast.Attribute)
+                    and n.value.func.attr == "get" and isinstance(n.value.func.value, ast.Name)
+                    and n.value.func.value.id in idx and len(n.value.args) == 1 and not n.value.keywords):
+                y = n.targets[0].id
+                if assigns.get(y) != 1:
+                    fail(n, f"element alias {y} is bound more than once")
+                elems[y] = n.value.func.value.id
+        if not roots:
+            return roots, idx, elems
+        # uses
+        def parents():
+            par = {}
+            for n in ast.walk(fn):
+                for c in ast.iter_child_nodes(n):
+                    par[id(c)] = n
+            return par
+        par = parents()
+        for n in ast.walk(fn):
+            if not (isinstance(n, ast.Name) and isinstance(n.ctx, ast.Load)):
+                continue
+            p = par.get(id(n))
+            if n.id in roots or n.id in elems:
+                ok = isinstance(p, ast.Attribute) and p.value is n
+                if n.id in elems and isinstance(p, ast.Compare) and len(p.ops) == 1 and isinstance(p.ops[0], (ast.Is, ast.IsNot)) \
+                        and isinstance(p.comparators[0], ast.Constant) and p.comparators[0].value is None and p.left is n:
+                    ok = True
+                if not ok:
+                    fail(n, f"alias {n.id} is used other than as `{n.id}.attr` / `{n.id} is None` (it would escape)")
+            if n.id in idx:
+                ok = isinstance(p, ast.Attribute) and p.value is n and p.attr == "get" and isinstance(par.get(id(p)), ast.Call)
+                if not ok:
+                    fail(n, f"index dict {n.id} is used other than as `{n.id}.get(..)`")
+        # the key names of a root alias are not rebound
+        for x, (d, key, i) in roots.items():
+            for kn in ast.walk(key):
+                if isinstance(kn, ast.Name) and assigns.get(kn.id, 0) > (1 if any(
+                        isinstance(t, ast.Name) and t.id == kn.id for st in top[:i] for t in ast.walk(st)
+                        if isinstance(t, ast.Name) and isinstance(t.ctx, ast.Store)) else 0):
+                    fail(key, f"the key of alias {x} is rebound")
+            self._alias_root_stmt = getattr(self, "_alias_root_stmt", {})
+        # list replaced only after the last use of its index and element aliases
+        for dname, (x, a, k, i) in idx.items():
+            derived = {dname} | {y for y, d0 in elems.items() if d0 == dname}
+            last_use = max([top_index(n) for n in ast.walk(fn)
+                            if isinstance(n, ast.Name) and n.id in derived] or [i])
+            for n in ast.walk(fn):
+                if (isinstance(n, ast.Assign) and len(n.targets) == 1 and isinstance(n.targets[0], ast.Attribute)
+                        and isinstance(n.targets[0].value, ast.Name) and n.targets[0].value.id == x
+                        and n.targets[0].attr == a):
+                    if top_index(n) <= last_use:
+                        fail(n, f"{x}.{a} is replaced while its index / element aliases are still in use")
+        # snapshots of x.attr in plain locals are not used after a later write through an element alias
+        elem_writes = [top_index(n) for n in ast.walk(fn)
+                       if isinstance(n, ast.Assign) and len(n.targets) == 1 and isinstance(n.targets[0], ast.Attribute)
+                       and isinstance(n.targets[0].value, ast.Name) and n.targets[0].value.id in elems]
+        for n in ast.walk(fn):
+            if (isinstance(n, ast.Assign) and len(n.targets) == 1 and isinstance(n.targets[0], ast.Name)
+                    and isinstance(n.value, ast.Attribute) and isinstance(n.value.value, ast.Name)
+                    and n.value.value.id in roots):
+                snap, i0 = n.targets[0].id, top_index(n)
+                uses = [top_index(m) for m in ast.walk(fn) if isinstance(m, ast.Name) and m.id == snap]
+                if any(w is not None and i0 <= w <= max(uses) for w in elem_writes):
+                    fail(n, f"{snap} holds {n.value.value.id}.{n.value.attr} while elements are changed through aliases")
+        return roots, idx, elems
+
     def _check_self_uses(self, fn):
         """values are immutable in PyMini: `self` may only be read through attributes (no aliasing)"""
         ok = set()
         for n in ast.walk(fn):
             if isinstance(n, ast.Attribute) and isinstance(n.value, ast.Name) and n.value.id == "self":
                 ok.add(id(n.value))
+            if self.kind == "KFluent" and isinstance(n, ast.Return) and isinstance(n.value, ast.Name):
+                ok.add(id(n.value))                   # `return self`: the value of a fluent method
         for n in ast.walk(fn):
             if isinstance(n, ast.Name) and n.id == "self" and id(n) not in ok:
                 fail(n, "`self` used other than as `self.<attribute>` (aliasing of the instance)")
@@ -315,6 +442,8 @@ class FunctionTranslator:
         if kind == "KProperty":
             if len(a.args) != 1:
                 fail(fn, "property with parameters")
+            kind = "KMethod"
+        if kind == "KFluent":
             kind = "KMethod"
         if self.in_class and not a.args:
             fail(fn, "method without a receiver parameter")
@@ -379,6 +508,8 @@ class FunctionTranslator:
         if isinstance(e, ast.Attribute):
             if not isinstance(e.ctx, ast.Load):
                 fail(e, "attribute in a non-load context")
+            if isinstance(e.value, ast.Name) and (e.value.id in self.alias_roots or e.value.id in self.alias_elems):
+                return f"(EPathAttr {self.local(e.value.id)} {cstr(e.attr)})"
             if isinstance(e.value, ast.Name) and e.value.id == "self" and self.receiver == "self" \
                     and e.attr in self.effects:
                 fail(e, f"self.{e.attr} (an object outside the translation) is used other than for a recorded call")
@@ -444,6 +575,16 @@ class FunctionTranslator:
             if not isinstance(e.ctx, ast.Load):
                 fail(e, "tuple in a non-load context")
             return f"(ETuple {clist([E(x) for x in e.elts])})"
+        if isinstance(e, ast.List):
+            if not isinstance(e.ctx, ast.Load):
+                fail(e, "list in a non-load context")
+            items = []
+            for x in e.elts:
+                if isinstance(x, ast.Starred):
+                    items.append(f"(true, {E(x.value)})")
+                else:
+                    items.append(f"(false, {E(x)})")
+            return f"(EList {clist(items)})"
         if isinstance(e, ast.Dict):
             if any(k is None for k in e.keys):
                 fail(e, "** in a dict display")
@@ -510,6 +651,8 @@ class FunctionTranslator:
                 fail(e, f"self.{f.attr}(..) never returns a value: supported only as a statement")
             if f.value.id == "self" and self.receiver == "self" and f.attr in self.props:
                 fail(e, "call of a property")
+            if f.value.id == "self" and self.receiver == "self" and self.kinds.get(f.attr) == "KFluent":
+                fail(e, f"self.{f.attr}(..) changes self and returns it: a call from translated code is not supported")
             if f.value.id in self.stringio and f.attr != "getvalue":
                 fail(e, "StringIO.write(..) is supported only as a statement")
         if isinstance(f, ast.Name) and f.id in self.opts.get("effect_functions", ()) and f.id not in self.locals:
@@ -540,6 +683,35 @@ class FunctionTranslator:
         if not out:
             return "[]"
         return "[\n" + ";\n".join(pad + "  " + t for t in out) + "\n" + pad + "]"
+
+    def _alias_written_check(self, s, d):
+        """after `x = self.d[k]` (statement s of the body) nothing rebinds / pops / deletes items of self.d"""
+        summ = self.opts.get("write_summary", {})
+        i = self.fn.body.index(s)
+        for st in self.fn.body[i + 1:]:
+            for n in ast.walk(st):
+                tgt = None
+                if isinstance(n, ast.Assign):
+                    tgt = n.targets
+                elif isinstance(n, (ast.AugAssign, ast.AnnAssign)):
+                    tgt = [n.target]
+                elif isinstance(n, ast.Delete):
+                    tgt = n.targets
+                for t in tgt or []:
+                    for m in ast.walk(t):
+                        if isinstance(m, ast.Attribute) and isinstance(m.value, ast.Name) and m.value.id == "self" \
+                                and m.attr == d and not (isinstance(t, ast.Attribute) and isinstance(t.value, ast.Subscript)):
+                            fail(n, f"self.{d} is written while an alias of one of its items is in use")
+                if isinstance(n, ast.Call) and isinstance(n.func, ast.Attribute):
+                    f = n.func
+                    if isinstance(f.value, ast.Attribute) and isinstance(f.value.value, ast.Name) \
+                            and f.value.value.id == "self" and f.value.attr == d and f.attr not in ("get",):
+                        fail(n, f"self.{d}.{f.attr}(..) while an alias of one of its items is in use")
+                    if isinstance(f.value, ast.Name) and f.value.id == "self":
+                        if f.attr not in summ:
+                            fail(n, f"self.{f.attr}(..) is not a translated method: what it writes is unknown")
+                        if d in summ[f.attr]:
+                            fail(n, f"self.{f.attr}(..) writes self.{d} while an alias of one of its items is in use")
 
     def effect_call(self, v):
         """self.<F>.<m>(args, kw=..) with F an attribute holding an object outside the translation"""
@@ -582,6 +754,35 @@ class FunctionTranslator:
                 if self.kind not in ("KProcedure", "KStateful"):
                     fail(s, "recorded call in a function whose run does not yield self")
                 return f"SCallbackEffect {E(v.func)} {E(v.args[0].value)} {E(v.keywords[0].value)}"
+        # ---- aliases of objects inside self (paths)
+        if isinstance(s, ast.Assign) and len(s.targets) == 1 and isinstance(s.targets[0], ast.Name):
+            x = s.targets[0].id
+            if x in self.alias_roots and self.alias_roots[x][2] is not None and s in self.fn.body \
+                    and isinstance(s.value, ast.Subscript):
+                d, key, _ = self.alias_roots[x]
+                if self.kind not in ("KProcedure", "KStateful"):
+                    fail(s, "alias of a dictionary item in a function whose run does not yield self")
+                self._alias_written_check(s, d)
+                return f"SAlias {self.local(x)} {cstr(d)} {E(key)}"
+            if x in self.index_dicts and isinstance(s.value, ast.DictComp):
+                ax, a, k, _ = self.index_dicts[x]
+                return f"SAssign {self.local(x)} (EIndexDict {self.local(ax)} {cstr(a)} {cstr(k)})"
+        if isinstance(s, ast.Assign) and len(s.targets) == 1 and isinstance(s.targets[0], ast.Attribute) \
+                and isinstance(s.targets[0].value, ast.Name) \
+                and (s.targets[0].value.id in self.alias_roots or s.targets[0].value.id in self.alias_elems):
+            t = s.targets[0]
+            return f"SPathSet {self.local(t.value.id)} {cstr(t.attr)} {E(s.value)}"
+        # ---- self.<A>.<F> = e, self.<A> an instance this object created and owns
+        if isinstance(s, ast.Assign) and len(s.targets) == 1 and isinstance(s.targets[0], ast.Attribute) \
+                and isinstance(s.targets[0].value, ast.Attribute) and isinstance(s.targets[0].value.value, ast.Name) \
+                and s.targets[0].value.value.id == "self" and self.receiver == "self" \
+                and s.targets[0].value.attr in self.owned:
+            t = s.targets[0]
+            if self.kind not in ("KFluent", "KProcedure", "KStateful"):
+                fail(s, "attribute assignment inside self in a function whose run does not yield self")
+            if t.attr not in self.owned[t.value.attr]:
+                fail(s, f"self.{t.value.attr} has no attribute {t.attr!r} (slots: the assignment raises)")
+            return f"SSelfSubSet {cstr(t.value.attr)} {cstr(t.attr)} {E(s.value)}"
         # ---- functions outside the translation that change their arguments (objects with identity): recorded
         gfx = self.opts.get("effect_functions", ())
         def gcall(v):
@@ -696,6 +897,8 @@ class FunctionTranslator:
                 return "SReturnSelf"              # function_kind: every return of a procedure is bare / None
             if self.kind == "KStateful":
                 return "SReturnState None" if s.value is None else f"SReturnState (Some {E(s.value)})"
+            if self.kind == "KFluent":
+                return f"SReturn (Some (EName {cstr('self')}))"   # function_kind: every return is `return self`
             return "SReturn None" if s.value is None else f"SReturn (Some {E(s.value)})"
         if isinstance(s, ast.For):
             it = s.iter
@@ -890,11 +1093,47 @@ def translate_module(modname, functions, global_table, out_name, reflect_checks,
         if not ok(b):
             fail(node, f"global name {name!r} is bound to {b!r}, not to what the table expects")
 
+    opts = dict(opts or {})
+    # which dict attributes of self each translated method may rebind / pop / delete items of (transitively)
+    if opts.get("dicts"):
+        direct, calls = {}, {}
+        for cls, name in functions:
+            if cls is None:
+                continue
+            fn0 = find_function(tree, cls, name)
+            w, c = set(), set()
+            for n in ast.walk(fn0):
+                tg = n.targets if isinstance(n, (ast.Assign, ast.Delete)) else \
+                    [n.target] if isinstance(n, (ast.AugAssign, ast.AnnAssign)) else []
+                for t in tg:
+                    if isinstance(t, ast.Attribute) and isinstance(t.value, ast.Subscript):
+                        continue                      # self.D[k].a = v: the item object itself is changed, not D
+                    for m in ast.walk(t):
+                        if isinstance(m, ast.Attribute) and isinstance(m.value, ast.Name) and m.value.id == "self":
+                            w.add(m.attr)
+                if isinstance(n, ast.Call) and isinstance(n.func, ast.Attribute):
+                    f0 = n.func
+                    if isinstance(f0.value, ast.Attribute) and isinstance(f0.value.value, ast.Name) \
+                            and f0.value.value.id == "self" and f0.attr != "get":
+                        w.add(f0.value.attr)
+                    if isinstance(f0.value, ast.Name) and f0.value.id == "self":
+                        c.add(f0.attr)
+            direct[name], calls[name] = w, c
+        changed = True
+        while changed:
+            changed = False
+            for name in direct:
+                for c in calls[name]:
+                    if c in direct and not direct[c] <= direct[name]:
+                        direct[name] |= direct[c]
+                        changed = True
+        opts["write_summary"] = direct
     stateful = bool((opts or {}).get("effects")) or bool((opts or {}).get("stateful"))
     kinds = {}
     for cls, name in functions:
         fn = find_function(tree, cls, name)
-        k = "KStateful" if isinstance(fn, ast.AsyncFunctionDef) else function_kind(fn, cls is not None, stateful)
+        k = "KStateful" if isinstance(fn, ast.AsyncFunctionDef) else \
+            function_kind(fn, cls is not None, stateful, bool(opts.get("fluent")))
         kinds.setdefault(cls, {})[name] = k
     defs, idents = [], []
     for cls, name in functions:
@@ -1263,7 +1502,7 @@ def _reflect_workspace():
 WORKSPACE_FUNCTIONS = [("Workspace", n) for n in (
     "__init__", "_create_text_document", "add_folder", "remove_folder", "get_text_document",
     "get_notebook_document", "put_text_document", "remove_text_document", "put_notebook_document",
-    "remove_notebook_document", "update_text_document")]
+    "remove_notebook_document", "update_text_document", "update_notebook_document")]
 
 
 def gen_workspace():
@@ -1277,7 +1516,8 @@ def gen_workspace():
              "TextDocumentSyncKind": _is_from("lsprotocol.types", "TextDocumentSyncKind"),
              "PositionEncodingKind": _is_from("lsprotocol.types", "PositionEncodingKind"),
              # pygls.uris functions: not linked here, oracles of the __init__ theorem
-             "uri_scheme": _is_from("pygls.uris", "uri_scheme"), "to_fs_path": _is_from("pygls.uris", "to_fs_path")},
+             "uri_scheme": _is_from("pygls.uris", "uri_scheme"), "to_fs_path": _is_from("pygls.uris", "to_fs_path"),
+             "logger": _is_logger},
             "AstWorkspace.v", _reflect_workspace,
             opts={"dicts": {"_text_documents", "_notebook_documents", "_cell_in_notebook", "_folders", "_docs"}})
     except Exception as e:
@@ -1341,8 +1581,138 @@ def gen_features():
         raise
 
 
+# ----------------------------------------------------------------------------------------------
+# (H) capabilities.py: ServerCapabilitiesBuilder._provider_options, _build and the _with_* methods that do not
+#     write through a reference to a registered option object.
+#     NOT translated (coq/Proofs/AstCapsEquiv.v says the same):
+#       _with_completion, _with_inlay_hints, _with_code_action, _with_code_lens, _with_document_link,
+#       _with_workspace_symbol, _with_diagnostic_provider - `value.resolve_provider = ..` /
+#         `value.workspace_diagnostics = ..` where `value` is what a method call returned: either the option
+#         object the user registered (shared, written in place - Model/Caps.v's heap) or a fresh default; PyMini
+#         has no identity for values that come out of a call;
+#       _with_semantic_tokens, _with_position_encodings - loops with break / return that PyMini has, but also
+#         isinstance against an lsprotocol class and membership in a module-level frozenset;
+#       _with_workspace_capabilities - setattr with a computed name, an f-string key into get_capability;
+#       build - chains the methods above;  __init__ - types.ServerCapabilities() (checked structurally below);
+#       get_capability - reduce(getattr, field.split(".")): an ORACLE of the theorems, sampled by reflection.
+
+CAPS_PLAIN = ["hover", "signature_help", "declaration", "definition", "type_definition", "implementation",
+              "references", "document_highlight", "document_symbol", "color", "document_formatting",
+              "document_range_formatting", "document_on_type_formatting", "folding_range", "selection_range",
+              "call_hierarchy", "type_hierarchy", "linked_editing_range", "moniker", "inline_value_provider"]
+CAPS_OTHER = ["text_document_sync", "notebook_document_sync", "rename", "execute_command"]
+CAPS_FUNCTIONS = [("ServerCapabilitiesBuilder", n) for n in
+                  ["_provider_options", "_build"] + ["_with_" + n for n in CAPS_OTHER + CAPS_PLAIN]]
+CAPS_CTORS = {"SignatureHelpOptions": [], "RenameOptions": ["prepare_provider"],
+              "ExecuteCommandOptions": ["commands"],
+              "TextDocumentSyncOptions": ["open_close", "change", "will_save", "will_save_wait_until", "save"]}
+
+
+def _caps_tree():
+    path = find_source("pygls.capabilities")
+    return ast.parse(open(path, encoding="utf-8").read(), filename=path)
+
+
+def _caps_constants(tree):
+    """the `types.NAME` method constants the translated functions mention"""
+    out = set()
+    for cls, name in CAPS_FUNCTIONS:
+        for n in ast.walk(find_function(tree, cls, name)):
+            if isinstance(n, ast.Attribute) and isinstance(n.value, ast.Name) and n.value.id == "types" \
+                    and n.attr.isupper():
+                out.add(n.attr)
+    return sorted(out)
+
+
+def _reflect_caps():
+    import attrs
+    t = importlib.import_module("lsprotocol.types")
+    m = importlib.import_module("pygls.capabilities")
+    if m.types is not t:
+        raise TranslateError("capabilities.types is not lsprotocol.types")
+    tree = _caps_tree()
+    # method constants are opaque, pairwise different values in PyMini (VGlobal [types; NAME]): they must be
+    # pairwise different strs
+    names = _caps_constants(tree)
+    vals = [getattr(t, n) for n in names]
+    if not all(type(v) is str for v in vals) or len(set(vals)) != len(vals):
+        raise TranslateError("lsprotocol method constants are not pairwise different strs")
+    # record constructors: the listed fields lead the attrs fields; defaults as in PyMini.ctor_default
+    for cls, fs in CAPS_CTORS.items():
+        af = attrs.fields(getattr(t, cls))
+        if [a.name for a in af][:len(fs)] != fs:
+            raise TranslateError(f"fields of {cls}")
+        for a in af:
+            if a.name in fs and cls == "ExecuteCommandOptions":
+                if a.default is not attrs.NOTHING:
+                    raise TranslateError("ExecuteCommandOptions.commands has a default")
+            elif a.default is not None:
+                raise TranslateError(f"{cls}.{a.name} does not default to None")
+        if getattr(t, cls).__attrs_attrs__ is not af and False:
+            pass
+    # ServerCapabilities: slots (an unknown attribute cannot be assigned)
+    sc = t.ServerCapabilities()
+    try:
+        sc.no_such_attribute_ = 1
+        raise TranslateError("ServerCapabilities accepts unknown attributes")
+    except AttributeError:
+        pass
+    if any(getattr(sc, a.name) is not None for a in attrs.fields(t.ServerCapabilities)):
+        raise TranslateError("ServerCapabilities() has a field that is not None")
+    # get_capability, the oracle: option chaining with a default
+    cc = t.ClientCapabilities(text_document=t.TextDocumentClientCapabilities(
+        synchronization=t.TextDocumentSyncClientCapabilities(will_save=True)))
+    g = m.get_capability
+    if not (g(cc, "text_document.synchronization.will_save") is True
+            and g(cc, "text_document.synchronization.will_save_wait_until") is None
+            and g(cc, "text_document.rename.prepare_support", False) is False
+            and g(t.ClientCapabilities(), "text_document.synchronization.will_save") is None
+            and g(cc, "no.such", 7) == 7):
+        raise TranslateError("get_capability is not option chaining with a default")
+
+
+def _caps_owned(tree):
+    """self.server_cap is assigned exactly once in the class, in __init__, as `types.ServerCapabilities()`, and
+    is never read other than as `self.server_cap.<field> = ..` / `return self.server_cap` in _build: the
+    builder owns it (nothing else can see a write to it before _build hands it out)"""
+    import attrs
+    t = importlib.import_module("lsprotocol.types")
+    cls = [n for n in tree.body if isinstance(n, ast.ClassDef) and n.name == "ServerCapabilitiesBuilder"]
+    if len(cls) != 1:
+        raise TranslateError("class ServerCapabilitiesBuilder")
+    assigns = []
+    for fn in cls[0].body:
+        if not isinstance(fn, (ast.FunctionDef, ast.AsyncFunctionDef)):
+            continue
+        for n in ast.walk(fn):
+            tg = n.targets if isinstance(n, ast.Assign) else [n.target] if isinstance(n, (ast.AugAssign, ast.AnnAssign)) else []
+            for x in tg:
+                if isinstance(x, ast.Attribute) and x.attr == "server_cap":
+                    assigns.append((fn.name, n))
+    ok = (len(assigns) == 1 and assigns[0][0] == "__init__" and isinstance(assigns[0][1], ast.Assign)
+          and ast.dump(assigns[0][1].value) == ast.dump(ast.parse("types.ServerCapabilities()").body[0].value)
+          and assigns[0][1] in find_function(tree, "ServerCapabilitiesBuilder", "__init__").body)
+    if not ok:
+        raise TranslateError("self.server_cap is not assigned exactly once, in __init__, as types.ServerCapabilities()")
+    return {"server_cap": {a.name for a in attrs.fields(t.ServerCapabilities)}}
+
+
+def gen_caps():
+    isdef = lambda b: b == ("def",)
+    try:
+        owned = _caps_owned(_caps_tree())
+        return translate_module(
+            "pygls.capabilities", CAPS_FUNCTIONS,
+            {"types": _is_from("lsprotocol", "types"), "get_capability": isdef},
+            "AstCaps.v", _reflect_caps, opts={"fluent": True, "owned": owned})
+    except Exception as e:
+        poison("AstCaps.v", repr(e))
+        raise
+
+
 GENERATORS = {"codec": gen_codec, "exceptions": gen_exceptions, "uris": gen_uris, "doc": gen_doc,
-              "progress": gen_progress, "workspace": gen_workspace, "features": gen_features}
+              "progress": gen_progress, "workspace": gen_workspace, "features": gen_features,
+              "caps": gen_caps}
 
 if __name__ == "__main__":
     which = sys.argv[1:] or ["codec"]
